@@ -53,6 +53,8 @@ pub(crate) mod header_session;
 mod shrex;
 #[cfg(eigerco_lumina_verif)]
 pub(crate) use shrex::pool_tracker_verif_hooks;
+#[cfg(eigerco_lumina_verif)]
+pub(crate) use shrex::{VerifCodecError, codec_verif_hooks};
 pub(crate) mod shwap;
 mod swarm;
 mod swarm_manager;
